@@ -50,6 +50,10 @@ CHECKS = {
    text="For each fault kind a history warm-up -> fault -> requests during -> heal -> 20 grace requests is followed by a verification stream in which every request must succeed (re-tried 3x1 s before it counts), the node's accept log must show a new connection, and after a layout change no request sent after an observed CLUSTER NODES fetch may be redirected.",
    note="Bounded-progress restatement of 'as soon as reachable' (H=20 requests + 200 ms, retries 3 x 1 s). SYN black-hole connect timeouts cannot be emulated on loopback and are not covered.",
    ref="DESIGN.md section 4 C07"),
+ "C11": dict(level="exploration", technique="hostile-input campaign against a monitored proxy child: exit status, canary liveness on another connection, peak-RSS bound per case; backend-side hostile replies per request class from simulated nodes; recover() around the exported parser wrapper in a child",
+   text="~640 (quick) downstream and backend-side hostile inputs by class (length fields, type bytes, truncation at every offset, PRNG mutations, nesting bombs to 6e6 levels, nested maximum-length arrays, malformed MOVED/ASK/CLUSTERDOWN, CLUSTER NODES bodies, SCAN replies, for each of READONLY / CLUSTER NODES / ASKING / SCAN / plain): the proxy must stay alive, keep answering a canary through a healthy node, and stay within a peak-RSS bound derived from input size and declared limits; complete invalid requests must get an error or a close.",
+   note="Trusted: input grammar/class list in cmd/vcheck/c11.go; RSS bound formula (64 MiB + 64 x input + declared bulk + 64 B x declared array length). Each input is written to run/C11/case-current.bin before it is sent; reach counters require every request class to have been served hostile bytes.",
+   ref="DESIGN.md section 4 C11"),
 }
 NOT_BUILT = "check not built yet in this session (design in DESIGN.md section 4)"
 
